@@ -23,6 +23,9 @@ type LocalAssignStmt struct {
 
 	Names []string
 	Exprs []Expr
+	// IsLocalFunction is set for `local function f ... end`, whose body sees f itself;
+	// `local f = function ... end` does not (its body sees any outer f).
+	IsLocalFunction bool
 }
 
 type FuncCallStmt struct {
